@@ -21,6 +21,10 @@ var execs = map[string]func(c J) J{}
 var drivers = map[string]func(seed int64, tier string) []J{}
 
 func main() {
+	if len(os.Args) == 2 && os.Args[1] == "fixtures" {
+		genFixtures()
+		return
+	}
 	if len(os.Args) < 3 {
 		fmt.Fprintln(os.Stderr, "usage: harness exec|drive <op>")
 		os.Exit(2)
